@@ -533,124 +533,90 @@ theorem aic_bic_formulas (c : Counts) (o : Rat) :
 
 /-- **get_rankval.**  NaN when the OFV is NaN or the strictness expression is
     false; otherwise the criterion selected by the rank type (`lrt` ranks on the
-    OFV). -/
+    OFV; `bic` without an explicit type is the documented default `mixed`). -/
 theorem get_rankval_spec (r : Res) (c : Counts) (s : Option SExpr) :
     (r.ofv = .nan → ∀ rt, getRankval r c s rt = .ok .nan) ∧
-    (∀ pv, isStrictnessFulfilled r s = .ok pv → truth pv = .ok false → ∀ rt, getRankval r c s rt = .ok .nan) ∧
-    (∀ pv, isStrictnessFulfilled r s = .ok pv → truth pv = .ok true →
+    (isStrictnessFulfilled r s = .ok false → ∀ rt, getRankval r c s rt = .ok .nan) ∧
+    (isStrictnessFulfilled r s = .ok true →
       getRankval r c s .ofv = .ok r.ofv ∧ getRankval r c s .lrt = .ok r.ofv ∧
       getRankval r c s .aic = .ok (aic c r.ofv) ∧
-      ∀ t, getRankval r c s (.bic (some t)) = .ok (bic c r.ofv t)) := by
+      (∀ t, getRankval r c s (.bic (some t)) = .ok (bic c r.ofv t)) ∧
+      getRankval r c s (.bic none) = .ok (bic c r.ofv .mixed)) := by
   refine ⟨?_, ?_, ?_⟩
   · intro h rt
-    simp [getRankval, isStrictnessFulfilled, h, Val.isNan, truth]
-  · intro pv h1 h2 rt
-    simp [getRankval, h1, h2]
-  · intro pv h1 h2
-    simp [getRankval, h1, h2]
+    simp [getRankval, isStrictnessFulfilled, h, Val.isNan]
+  · intro h1 rt
+    simp [getRankval, h1]
+  · intro h1
+    simp [getRankval, h1]
 
 /-! ## strictness -/
 
-/-- **strictness_eval.**  As long as `rse` is not rebound to the raw Series
-    (i.e. the expression does not use `rse` together with `rse_theta/omega/sigma`),
-    Python's evaluation of the expression is total and its truth value is the
-    plain boolean denotation of the documented grammar. -/
-theorem strictness_eval (r : Res) (rseRaw : Bool) (e : SExpr)
-    (h : rseRaw = false ∨ e.mentionsN .rse = false) :
-    ∃ v, evalS r rseRaw e = .ok v ∧ truth v = .ok (denote r e) := by
+/-- **strictness_eval.**  Python's evaluation of the expression (short-circuit
+    `and`/`or` returning an operand) is the plain boolean denotation of the
+    documented grammar — for every expression, including those that use `rse`
+    together with `rse_theta/omega/sigma`. -/
+theorem strictness_eval (r : Res) (e : SExpr) : evalS r e = denote r e := by
   induction e with
-  | b a => exact ⟨_, rfl, rfl⟩
-  | cmp a op c =>
-    have : (a == NAttr.rse && rseRaw) = false := by
-      rcases h with h | h
-      · simp [h]
-      · simp [SExpr.mentionsN] at h; simp [h]
-    exact ⟨.bool (cmpAll op (narr r a) c), by simp [evalS, this], rfl⟩
-  | rcmp c op a =>
-    have : (a == NAttr.rse && rseRaw) = false := by
-      rcases h with h | h
-      · simp [h]
-      · simp [SExpr.mentionsN] at h; simp [h]
-    exact ⟨.bool (cmpAll op.flip (narr r a) c), by simp [evalS, this], rfl⟩
-  | and x y ihx ihy =>
-    have hx : rseRaw = false ∨ x.mentionsN .rse = false := by
-      rcases h with h | h
-      · exact Or.inl h
-      · simp [SExpr.mentionsN] at h; exact Or.inr h.1
-    have hy : rseRaw = false ∨ y.mentionsN .rse = false := by
-      rcases h with h | h
-      · exact Or.inl h
-      · simp [SExpr.mentionsN] at h; exact Or.inr h.2
-    obtain ⟨vx, hvx, htx⟩ := ihx hx
-    obtain ⟨vy, hvy, hty⟩ := ihy hy
-    cases hd : denote r x with
-    | true => exact ⟨vy, by simp [evalS, hvx, htx, hd, hvy], by simp [denote, hd, hty]⟩
-    | false => exact ⟨vx, by simp [evalS, hvx, htx, hd], by simp [denote, hd, htx]⟩
-  | or x y ihx ihy =>
-    have hx : rseRaw = false ∨ x.mentionsN .rse = false := by
-      rcases h with h | h
-      · exact Or.inl h
-      · simp [SExpr.mentionsN] at h; exact Or.inr h.1
-    have hy : rseRaw = false ∨ y.mentionsN .rse = false := by
-      rcases h with h | h
-      · exact Or.inl h
-      · simp [SExpr.mentionsN] at h; exact Or.inr h.2
-    obtain ⟨vx, hvx, htx⟩ := ihx hx
-    obtain ⟨vy, hvy, hty⟩ := ihy hy
-    cases hd : denote r x with
-    | true => exact ⟨vx, by simp [evalS, hvx, htx, hd], by simp [denote, hd, htx]⟩
-    | false => exact ⟨vy, by simp [evalS, hvx, htx, hd, hvy], by simp [denote, hd, hty]⟩
-  | not x ih =>
-    have hx : rseRaw = false ∨ x.mentionsN .rse = false := by
-      rcases h with h | h
-      · exact Or.inl h
-      · simp [SExpr.mentionsN] at h; exact Or.inr h
-    obtain ⟨vx, hvx, htx⟩ := ih hx
-    exact ⟨.bool (!denote r x), by simp [evalS, hvx, htx], by simp [denote, truth]⟩
+  | b a => rfl
+  | cmp a op c => rfl
+  | rcmp c op a => rfl
+  | and x y ihx ihy => simp only [evalS, denote, ihx, ihy]; cases denote r x <;> simp
+  | or x y ihx ihy => simp only [evalS, denote, ihx, ihy]; cases denote r x <;> simp
+  | not x ih => simp only [evalS, denote, ih]
 
-/-- `is_strictness_fulfilled` on a result with an OFV and RSEs, for an expression
-    that does not mix `rse` with the per-class RSE names: total, and true exactly
-    when the denotation is. A NaN OFV always fails; the empty string always passes. -/
-theorem is_strictness_fulfilled_partial (r : Res) (e : SExpr) (hofv : r.ofv.isNan = false)
-    (hrse : r.rse.isNone = false) (hmix : e.mentionsRseClass = false ∨ e.mentionsN .rse = false) :
-    ∃ v, isStrictnessFulfilled r (some e) = .ok v ∧ truth v = .ok (denote r e) := by
-  unfold isStrictnessFulfilled
-  simp only [hofv, hrse, Bool.and_false, Bool.false_eq_true, if_false]
-  exact strictness_eval r _ e hmix
-
-theorem is_strictness_fulfilled_trivial (r : Res) (s : Option SExpr) :
-    (r.ofv = .nan → isStrictnessFulfilled r s = .ok (.bool false)) ∧
-    (r.ofv.isNan = false → isStrictnessFulfilled r none = .ok (.bool true)) := by
-  constructor
+/-- **is_strictness_fulfilled, full statement.**  A NaN OFV always fails; the
+    empty string always passes; an expression that needs RSEs the result does not
+    have is refused (ValueError for `rse`, AttributeError for the per-class
+    names); in every other case the answer is the denotation of the expression. -/
+theorem is_strictness_fulfilled_spec (r : Res) (s : Option SExpr) :
+    (r.ofv = .nan → isStrictnessFulfilled r s = .ok false) ∧
+    (r.ofv.isNan = false → isStrictnessFulfilled r none = .ok true) ∧
+    (∀ e, r.ofv.isNan = false → r.rse.isNone = true → e.mentionsN .rse = true →
+      isStrictnessFulfilled r (some e) = .error .valueError) ∧
+    (∀ e, r.ofv.isNan = false → r.rse.isNone = true → e.mentionsN .rse = false → e.mentionsRseClass = true →
+      isStrictnessFulfilled r (some e) = .error .attributeError) ∧
+    (∀ e, r.ofv.isNan = false → (r.rse.isNone = false ∨ (e.mentionsN .rse = false ∧ e.mentionsRseClass = false)) →
+      isStrictnessFulfilled r (some e) = .ok (denote r e)) := by
+  refine ⟨?_, ?_, ?_, ?_, ?_⟩
   · intro h; simp [isStrictnessFulfilled, h, Val.isNan]
   · intro h; simp [isStrictnessFulfilled, h]
+  · intro e h1 h2 h3; simp [isStrictnessFulfilled, h1, h2, h3]
+  · intro e h1 h2 h3 h4; simp [isStrictnessFulfilled, h1, h2, h3, h4]
+  · intro e h1 h2
+    rcases h2 with h2 | ⟨h2, h3⟩
+    · simp [isStrictnessFulfilled, h1, h2, strictness_eval]
+    · simp [isStrictnessFulfilled, h1, h2, h3, strictness_eval]
 
-/-- The full statement of `is_strictness_fulfilled_partial` is false without the
-    side condition: `rse < 0.4 and rse_theta < 0.3` raises (ValueError: truth value
-    of a Series) although its documented meaning is `True` here. -/
-theorem strictness_rse_mix_witness :
-    isStrictnessFulfilled witnessRes (some (.and (.cmp .rse .lt (4/10)) (.cmp .rseTheta .lt (3/10)))) = .error .valueError ∧
-    denote witnessRes (.and (.cmp .rse .lt (4/10)) (.cmp .rseTheta .lt (3/10))) = true := by
-  constructor
-  · rfl
-  · decide +kernel
+/-- The former counter-example (`rse` used together with `rse_theta`, D2): it now
+    evaluates to its documented meaning. -/
+theorem strictness_rse_mix_holds :
+    isStrictnessFulfilled witnessRes (some (.and (.cmp .rse .lt (4/10)) (.cmp .rseTheta .lt (3/10)))) = .ok true := by
+  rw [(is_strictness_fulfilled_spec witnessRes none).2.2.2.2 _ rfl (Or.inl rfl)]
+  congr 1
+  decide +kernel
 
-/-- `final_zero_gradient_theta` is as documented: some theta gradient is zero or NaN. -/
-theorem fzg_theta_documented (r : Res) :
-    battr r .fzgTheta = (ofClass .theta r.grd).any (fun g => isZero g || g.isNan) := by
-  simp only [battr]
-  induction (ofClass PClass.theta r.grd) with
-  | nil => rfl
-  | cons g gs ih =>
-    simp only [List.any_cons] at ih ⊢
-    rw [← ih]
-    cases isZero g <;> cases g.isNan <;> simp
+/-- **final_zero_gradient_theta/omega/sigma are as documented**: true iff some
+    gradient of *that* class is zero or NaN (D1 repaired). -/
+theorem fzg_documented (r : Res) :
+    battr r .fzgTheta = fzgDoc r .theta ∧ battr r .fzgOmega = fzgDoc r .omega ∧
+    battr r .fzgSigma = fzgDoc r .sigma := by
+  have h : ∀ gs : List Val, (gs.any isZero || gs.any Val.isNan) = gs.any (fun g => isZero g || g.isNan) := by
+    intro gs
+    induction gs with
+    | nil => rfl
+    | cons g gs ih =>
+      simp only [List.any_cons]
+      rw [← ih]
+      cases isZero g <;> cases g.isNan <;> simp
+      all_goals (cases gs.any isZero <;> simp)
+  exact ⟨h _, h _, h _⟩
 
-/-- …but `final_zero_gradient_omega` is not: with a NaN *omega* gradient (and no
-    zero gradient) it is false, and it becomes true when a *theta* gradient is NaN. -/
-theorem fzg_omega_nan_witness :
-    battr witnessRes .fzgOmega = false ∧
-    battr { witnessRes with grd := [(.theta, .nan), (.omega, .num 1), (.sigma, .num 1)] } .fzgOmega = true := by
+/-- The former witness of D1: a NaN omega gradient makes `final_zero_gradient_omega`
+    true, a NaN theta gradient alone does not. -/
+theorem fzg_omega_nan_holds :
+    battr witnessRes .fzgOmega = true ∧
+    battr { witnessRes with grd := [(.theta, .nan), (.omega, .num 1), (.sigma, .num 1)] } .fzgOmega = false := by
   constructor <;> decide +kernel
 
 /-! ## _categorize_parameters -/
@@ -756,10 +722,10 @@ example : IsNanArgmin [.nan, .num 2, .num 1, .nan, .num 1] 2 := by
   have : nanargmin [.nan, .num 2, .num 1, .nan, .num 1] = some 2 := by decide +kernel
   exact ((nanargmin_spec _).2 2).mp this
 
-/-- The hypotheses of `is_strictness_fulfilled_partial` hold for the default strictness of the tools. -/
-example : ∃ v, isStrictnessFulfilled witnessRes
-      (some (.or (.b .minimizationSuccessful) (.and (.b .roundingErrors) (.cmp .sigdigs .ge (1/10))))) = .ok v
-      ∧ truth v = .ok true :=
-  is_strictness_fulfilled_partial witnessRes _ rfl rfl (Or.inl rfl)
+/-- The default strictness of the tools on a fine result is fulfilled (last clause of `is_strictness_fulfilled_spec`). -/
+example : isStrictnessFulfilled witnessRes
+      (some (.or (.b .minimizationSuccessful) (.and (.b .roundingErrors) (.cmp .sigdigs .ge (1/10))))) = .ok true := by
+  rw [(is_strictness_fulfilled_spec witnessRes none).2.2.2.2 _ rfl (Or.inl rfl)]
+  congr 1
 
 end Pharmpy.C19
